@@ -94,7 +94,11 @@ class SelDevice:
                 raise NoProgress('step issued more requests than any correct operation on this log needs')
         if self.plan:
             a = self.plan.pop(0)
-            if a is not None:
+            if isinstance(a, str):                  # 'del-first': another party deletes the oldest entry
+                if self.log:
+                    del self.log[0]
+                    self.valid = False
+            elif a is not None:
                 self.log.append(bytes(a))
                 self.valid = False
         if k in self.script:
@@ -243,6 +247,26 @@ def oracle_entries(inp):
             return 'entry %d: %s' % (k, m)
     if not log and any(x.cmd != CMD_INFO for x in ex):
         return 'empty log but further requests were sent'
+    return None
+
+
+def oracle_entries_change(inp):
+    """the log changes (another party appends, or deletes the oldest entry) while it is being read: the read may fail
+    with an error, but whatever it returns consists of entries that were stored - each at most once"""
+    plan = [p if p in (None, 'del-first') else bytes.fromhex(p) for p in inp['plan']]
+    dev = SelDevice([bytes.fromhex(x) for x in inp['log']], inp['limit'], plan=plan,
+                    max_requests=40 * len(inp['log']) + 2000)
+    ever = list(dev.log) + [p for p in plan if isinstance(p, bytes)]
+    out, ex = _run(dev, lambda ipmi: list(getattr(ipmi, inp['op'])()))
+    if out[0] == 'err':
+        return None
+    used = set()
+    for k, e in enumerate(out[1]):
+        hit = [i for i, r in enumerate(ever) if i not in used and check_entry(e, r) is None]
+        if not hit:
+            return ('%s returned as entry %d the bytes %s, which were never stored as one entry (or were already '
+                    'returned): the log changed before request %s' % (inp['op'], k, entry_bytes(e).hex(), [i for i, p in enumerate(plan) if p is not None]))
+        used.add(hit[0])
     return None
 
 
@@ -546,7 +570,7 @@ def _sel_seq(inp):
     return r[0] if r else None
 
 
-ORACLES = {'entries': oracle_entries, 'gac': oracle_gac, 'decode': oracle_decode, 'sel_seq': _sel_seq,
+ORACLES = {'entries': oracle_entries, 'entries_change': oracle_entries_change, 'gac': oracle_gac, 'decode': oracle_decode, 'sel_seq': _sel_seq,
            'clear': oracle_clear}
 
 
@@ -736,6 +760,17 @@ def run(ctx):
             % (c_ex(ex), c_res(out, lambda v: C.c_list([c_entry(e) for e in v])), dev_term(log, 6, plan, dev, ex)),
             {'kind': 'entries-concurrent-change', 'pos': pos})
         D.add(('entries-change', pos), True, 'entries-concurrent-change')
+
+    # the same judged directly: appends and deletions of the oldest entry before every request index, every limit
+    for limit in limits:
+        for op in ('get_sel_entries', 'sel_entries'):
+            for pos in range(0, 14 if ctx.quick else 40):
+                for what in ('del-first', 'append'):
+                    log = mk_log(rng, 3)
+                    ch = 'del-first' if what == 'del-first' else mk_record(rng, 0x7778).hex()
+                    oracle('entries_change', {'log': [r.hex() for r in log], 'limit': limit, 'op': op,
+                                              'plan': [None] * pos + [ch]}, '%s:entry-never-stored' % op)
+                    D.add(('entries-change-judged', limit, op, pos, what), True, 'entries-change-judged')
 
     # ------------------------------------------------------------ get-and-clear
     def gac_case(log, limit, rid, plan, corr=True):
